@@ -24,11 +24,12 @@ def primLabel : Prim → String
   | .sync f => "sync-" ++ extName f
   | .create f => "create-" ++ extName f
   | .remove f => "remove-" ++ extName f
+  | .truncate f _ => "truncate-" ++ extName f
 
 def iterStr (r : List Bytes × IterEnd) : String :=
   joinSp ([match r.2 with | .ok => "ok" | .err => "err" | .fault => "panic", toString r.1.length] ++ r.1.map toHex)
 
-def wholeRangeEnd : Int := 4611686018427387904
+def wholeRangeEnd : Int := 9223372036854775807
 
 /-- record the primitives of an op on a file store, then run it -/
 def crTraced (c : CrWorld) (sid : String) (prims : List Prim) (run : StWorld → Option (StWorld × String)) : CrWorld × String :=
